@@ -769,6 +769,159 @@ async def _open_read(sftp):
         return await f.read(100)
 
 
+# ------------------------------------------------------------------------------------------------
+# everything else the library hands out that lives on the connection: listeners of every kind and their
+# wait_closed(), a process and its wait(), with the connection ended five ways at every packet position
+
+DEP_ENDS = ('cut', 'reset', 'close', 'abort', 'srvclose')
+
+
+async def dependents_once(k, how, tmpdir):
+    """returns (problems, reached_end)"""
+    import asyncssh
+    import gc
+    import os
+    before = set(asyncio.all_tasks())
+    loop = asyncio.get_running_loop()
+    errors = []
+    old_handler = loop.get_exception_handler()
+    loop.set_exception_handler(lambda lp, c: errors.append(repr(c.get('exception') or c.get('message'))[:160]))
+    sconns = []
+
+    class Srv(asyncssh.SSHServer):
+        def connection_made(self, conn):
+            sconns.append(conn)
+
+        def begin_auth(self, username):
+            return False
+
+        def server_requested(self, listen_host, listen_port):
+            return True
+
+        def unix_server_requested(self, listen_path):
+            return True
+
+    async def handler(process):
+        await process.stdin.read(10)
+        process.exit(0)
+    tun, wire, acc, conn = await memwire.connected_pair(Srv, srv_kw=dict(process_factory=handler))
+    await memwire.settle(8)
+    wire.auto = False
+    n = [0]
+    TURNS = 10
+
+    async def pump(until):
+        for _ in range(4000):
+            if until() or n[0] >= k:
+                return
+            moved = False
+            for side in 'cs':
+                if wire.pending(side) and n[0] < k:
+                    wire.deliver(side, 1)
+                    n[0] += 1
+                    moved = True
+                    await memwire.settle(TURNS)
+                    if until():
+                        return
+            if not moved:
+                await memwire.settle(TURNS)
+                if not (wire.pending('c') or wire.pending('s')):
+                    return
+    makers = {
+        'forward_remote_port(dynamic)': lambda: conn.forward_remote_port('127.0.0.1', 0, '127.0.0.1', 9),
+        'forward_remote_port(dynamic,2)': lambda: conn.forward_remote_port('127.0.0.1', 0, '127.0.0.1', 9),
+        'forward_local_port': lambda: conn.forward_local_port('127.0.0.1', 0, '127.0.0.1', 9),
+        'forward_socks': lambda: conn.forward_socks('127.0.0.1', 0),
+        'forward_remote_path': lambda: conn.forward_remote_path(os.path.join(tmpdir, f'r{k}{how}.sock'), os.path.join(tmpdir, 'x')),
+        'forward_local_path': lambda: conn.forward_local_path(os.path.join(tmpdir, f'l{k}{how}.sock'), os.path.join(tmpdir, 'x')),
+        'create_server(remote)': lambda: conn.create_server(lambda *a: None, '127.0.0.1', 0),
+        'create_process': lambda: conn.create_process(),
+    }
+    futs = {name: simmod._spawn(mk()) for name, mk in makers.items()}
+    await memwire.settle(TURNS)
+    await pump(lambda: all(f.done() for f in futs.values()))
+    objs = {name: f.result() for name, f in futs.items()
+            if f.done() and not f.cancelled() and f.exception() is None}
+    waits = {}
+    for name, o in objs.items():
+        waits[name + '.wait_closed'] = simmod._spawn(o.wait() if name == 'create_process' else o.wait_closed())
+    waits['conn.wait_closed'] = simmod._spawn(conn.wait_closed())
+    await memwire.settle(TURNS)
+    reached_end = all(f.done() for f in futs.values()) and n[0] < k
+    if how == 'cut':
+        wire.cut_link()
+    elif how == 'reset':
+        wire.cut_link(ConnectionResetError('connection reset'))
+    elif how == 'close':
+        conn.close()
+    elif how == 'abort':
+        conn.abort()
+    elif how == 'srvclose' and sconns:
+        sconns[0].close()
+        while wire.pending('s') and not wire.lost['c']:
+            wire.deliver('s', 1)
+    await memwire.settle(6 * simmod.SETTLE_TURNS)
+    # late calls on the dead connection
+    late = {'late forward_remote_port': simmod._spawn(conn.forward_remote_port('127.0.0.1', 0, '127.0.0.1', 9)),
+            'late forward_local_port': simmod._spawn(conn.forward_local_port('127.0.0.1', 0, '127.0.0.1', 9))}
+    for name, o in objs.items():
+        if name != 'create_process':
+            o.close()
+            late[name + '.wait_closed(after close)'] = simmod._spawn(o.wait_closed())
+    await memwire.settle(3 * simmod.SETTLE_TURNS)
+    probs = []
+    for name, f in list(futs.items()) + list(waits.items()) + list(late.items()):
+        if not f.done():
+            f.cancel()
+            probs.append(('hang', f'{name} still pending after the connection ended ({how}) after {n[0]} packets'))
+        elif name.startswith('late') and not f.cancelled() and f.exception() is None and hasattr(f.result(), 'close'):
+            f.result().close()
+    wire.cut_link()
+    acc.close()
+    await memwire.settle(8)
+    for side, c in (('c', wire.cconn), ('s', wire.sconn)):
+        regs = getattr(c, '_channels', None)
+        if regs:
+            probs.append(('registered', f'{side} has {len(regs)} channel(s) registered after the connection ended ({how})'))
+    lt = leftover_tasks(before)
+    if lt:
+        probs.append(('tasks', f'connection ended ({how}) after {n[0]} packets: {len(lt)} task(s) left: ' + repr(lt[0].get_coro())[:100]))
+        for t in lt:
+            t.cancel()
+        await memwire.settle(2)
+    del futs, waits, late, objs
+    gc.collect()
+    await memwire.settle(2)
+    if errors:
+        probs.append(('loop-exception', f'connection ended ({how}) after {n[0]} packets: reached the loop exception handler: '
+                                        + '; '.join(errors[:2])))
+    loop.set_exception_handler(old_handler)
+    return probs, reached_end
+
+
+async def dependents_sweep(ctx, report, step):
+    import tempfile
+    import shutil
+    d = tempfile.mkdtemp(prefix='c09dep')
+    try:
+        k = 0
+        while k < 400 and report.budget.hangs < MAX_HANGS:
+            end = False
+            for how in DEP_ENDS:
+                probs, e = await dependents_once(k, how, d)
+                end = end or e
+                ctx.count('dependents.' + how, group='oracle')
+                ctx.note_case(('dependents', k, how), nontrivial=True)
+                for p in probs:
+                    report(ctx, p, {'kind': 'dependents', 'k': k, 'how': how})
+            if end:
+                break
+            k += step
+        return k
+    finally:
+        shutil.rmtree(d, ignore_errors=True)
+
+
 async def sftp_cut_sweep(ctx, report, step):
     import tempfile
     import os
@@ -915,6 +1068,9 @@ async def main_async(ctx):
     if budget.hangs < MAX_HANGS:
         n = await sftp_cut_sweep(ctx, report, 1 if thorough else 2)
         ctx.log(f'SFTP client: link cut at packet positions up to {n}')
+    if budget.hangs < MAX_HANGS:
+        n = await dependents_sweep(ctx, report, 1 if thorough else 3)
+        ctx.log(f'listeners / process: connection ended five ways at packet positions up to {n}')
     # ---- vacuity guards ----------------------------------------------------------------------------
     d = ctx.cov['distribution']
     for need in ('model_op.PClose', 'model_op.PEof', 'model_op.LClose', 'model_op.LAbort', 'model_op.Cut', 'model_op.PConfirm',
@@ -923,7 +1079,8 @@ async def main_async(ctx):
                  'model_op.PGlobalReply', 'model_op.LWrite', 'model_op.LResume'):
         if d.get(need, 0) < 3:
             ctx.broke('vacuity:' + need, f'only {d.get(need, 0)} occurrences generated')
-    if ctx.cov['oracle'].get('connect.cut_positions', 0) < 8 or ctx.cov['oracle'].get('sftp.cut_positions', 0) < 8:
+    if ctx.cov['oracle'].get('connect.cut_positions', 0) < 8 or ctx.cov['oracle'].get('sftp.cut_positions', 0) < 8 \
+            or ctx.cov['oracle'].get('dependents.abort', 0) < 5:
         ctx.broke('vacuity:sweeps', 'connect / SFTP cut sweeps explored too few positions')
     if budget.hangs >= MAX_HANGS:
         ctx.log(f'circuit breaker: stopped exploring after {budget.hangs} hang findings')
@@ -981,6 +1138,15 @@ def replay(rp):
             # re-run the sweep up to the recorded position
             await connect_cut_sweep_replay(rp, out)
             return out
+        if kind == 'dependents':
+            import tempfile
+            import shutil
+            d = tempfile.mkdtemp(prefix='c09dep')
+            try:
+                probs, _ = await dependents_once(rp['k'], rp['how'], d)
+                return probs
+            finally:
+                shutil.rmtree(d, ignore_errors=True)
         if kind == 'sftp':
             import tempfile
             import os
